@@ -189,14 +189,6 @@ def dvtName (n : Nat) : String :=
   | some p => p.1
   | none => "?"
 
-/-- Flags of the CTrait produced by a *second* `as_ctrait()` of one TraitType
-instance: `comparison_mode = metadata.pop("comparison_mode", None)`
-(trait_type.py:470) removes the entry from the trait type's own `_metadata`
-the first time, so every later CTrait is left with the flags of a new
-`CTrait(kind)`, i.e. `ComparisonMode.equality`. -/
-def clearCmp (flags : Nat) : Nat :=
-  flags &&& (0xFFFFFFFF ^^^ Generated.TRAIT_COMPARISON_MODE_MASK)
-
 /-- `TraitType.clone(default_value)` (trait_type.py:333-371): the new
 `(default_value_type, default_value)` of the clone.  `validated` is the outcome
 of `self.validate(None, None, default_value)` (an exception there is logged
@@ -218,14 +210,17 @@ def cloneDefault (E : Env) (t : TraitCore) (newDv : Id) (c : Ctx) : Except Exc T
     let dvt' :=
       if Generated.cloneBecomesConstantDefaultValue.contains (dvtName t.dvt) then Generated.CONSTANT_DEFAULT_VALUE
       else t.dvt
-    -- the clone shares the already-popped `_metadata` copy: its CTrait has no comparison mode
-    (.ok { t with flags := clearCmp t.flags, dvt := dvt', dv := some dv2 }, c2)
+    -- `as_ctrait` reads `comparison_mode` from the trait type's `_metadata` without removing it
+    -- (trait_type.py:470-475, repaired by 84d55f9: it used to `pop` it, finding F23), and the clone
+    -- copies that `_metadata`: the CTrait of the clone has the flags of the original
+    (.ok { t with dvt := dvt', dv := some dv2 }, c2)
 
 /-- What a class body says about one attribute name. -/
 inductive Member where
   /-- `x = SomeTrait(...)`: the CTrait `as_ctrait()` produces -/
   | trait (t : TraitCore)
-  /-- `x = t` where the TraitType instance `t` was already bound to an earlier name -/
+  /-- `x = t` where the TraitType instance `t` was already bound to an earlier name:
+  every `as_ctrait()` of one TraitType instance yields the same definition -/
   | traitAgain (t : TraitCore)
   /-- `x = <value>` where a base class defines trait `x` (override by value) -/
   | value (v : Id)
@@ -267,7 +262,7 @@ def declare (E : Env) (base : Option ClassRec) (d : Decl) (c : Ctx) : Except Exc
   let resolved : Except Exc (Option TraitCore) × Ctx :=
     match d.member with
     | some (.trait t) => (.ok (some t), c)
-    | some (.traitAgain t) => (.ok (some { t with flags := clearCmp t.flags }), c)
+    | some (.traitAgain t) => (.ok (some t), c)
     | some (.value v) =>
       match inherited with
       | none => (.ok none, c)           -- plain class attribute, not a trait
